@@ -114,3 +114,13 @@ m("c04-f3b-revert", "C04", "interfaces/_partial.py", "        if not self.leaf a
 m("c04-leaf-template-constructed-twice", "C04", "interfaces/_partial.py",
   "            if other.leaf:\n                return self >> other.__construct__()", "            if other.leaf:\n                other.__construct__()\n                return self >> other.__construct__()")
 m("c04-deco-s-leaf", "C04", "interfaces/_proxy.py", "return Partial(cls, *args, __leaf__=False, **kwargs)", "return Partial(cls, *args, __leaf__=True, **kwargs)")
+# ---- C15
+m("c15-release-lt", "C15", "composite/factory.py", "            if child.demand <= excess_demand:", "            if child.demand < excess_demand:")
+m("c15-excess-not-decremented", "C15", "composite/factory.py", "                excess_demand -= child.demand\n", "")
+m("c15-grow-ge", "C15", "composite/factory.py", "        while missing_demand > 0:", "        while missing_demand >= 0:")
+m("c15-release-keeps-demand", "C15", "composite/factory.py", "        child.demand = 0\n        self._hatchery.discard(child)", "        self._hatchery.discard(child)")
+m("c15-release-keeps-hatchery", "C15", "composite/factory.py", "        self._hatchery.discard(child)\n", "")
+m("c15-supply-hatchery-only", "C15", "composite/factory.py", "        return sum(child.supply for child in self.children)", "        return sum(child.supply for child in self._hatchery)")
+m("c15-no-reap-after-grow", "C15", "composite/factory.py", "            missing_demand -= new_child.demand\n        self._reap_children()", "            missing_demand -= new_child.demand")
+m("c15-util-all-children", "C15", "composite/factory.py", "        active_children = [child for child in self.children if child.supply > 0]\n        try:\n            return sum(child.utilisation", "        active_children = [child for child in self.children]\n        try:\n            return sum(child.utilisation")
+m("c15-grow-counts-hatchery-only", "C15", "composite/factory.py", "missing_demand = target - sum(child.demand for child in self.children)", "missing_demand = target - sum(child.demand for child in self._hatchery if child.supply > 0)")
